@@ -39,6 +39,13 @@ const (
 	END    // End
 )
 
+// isKeyword returns true if the token is a word of the nexus
+// vocabulary (BEGIN, DATA, GAP, END, etc.), i.e. neither a
+// punctuation mark nor an identifier
+func isKeyword(tok Token) bool {
+	return tok >= NEXUS && tok != EQUAL
+}
+
 func isWhitespace(ch rune) bool {
 	return ch == ' ' || ch == '\t'
 }
